@@ -169,6 +169,14 @@ Proof.
 Qed.
 Print Assumptions biweight_defined_affine_invariant.
 
+(* `np.abs(u) >= 1` vs `> 1`: at |u| = 1 the weight (1 - u^2)^2 is 0, so the estimator with the strict
+   cut ([est_biweight_with bw_w_strict]) is the same function — a mutation of that comparison is
+   not observable on any data *)
+Theorem biweight_location_cut_boundary_immaterial : forall (c : Q) (l : list Q),
+  est_biweight_with bw_w_strict c l == est_biweight c l.
+Proof. exact est_biweight_cut_boundary. Qed.
+Print Assumptions biweight_location_cut_boundary_immaterial.
+
 (* ================================================================== *)
 (* 7. all background classes at once, on related samples (also: compatible with ==)   *)
 (* ================================================================== *)
@@ -240,6 +248,12 @@ Proof.
   exact (fun c a b l Ha Hn => midvariance_defined_arel a b Ha l _ (Forall2_map_arel a b l) Hn c).
 Qed.
 Print Assumptions midvariance_defined_affine_invariant.
+
+(* `np.abs(u) < 1` vs `<= 1` in biweight_midvariance: both summands vanish at |u| = 1 *)
+Theorem biweight_scale_cut_boundary_immaterial : forall M s x : Q,
+  bs_t1_incl M s x == bs_t1 M s x /\ bs_t2_incl M s x == bs_t2 M s x.
+Proof. exact bs_terms_cut_boundary. Qed.
+Print Assumptions biweight_scale_cut_boundary_immaterial.
 
 Theorem rms2_affine_all_classes : forall (R : rms_class) (a b : Q) (l l' : list Q),
   0 < a -> Forall2 (arel a b) l l' -> l <> [] -> rms2_of_class R l' == a * a * rms2_of_class R l.
